@@ -38,8 +38,9 @@ Definition sel_outputs (cs : list xnum) (pi : list nat) : list (list nat) :=
                            gen_best_agents_indexes Ag l n d pi; gen_worst_agents_indexes Ag l n d pi])
                 (seq 0 (S (length cs)))
     ++ [oids (gen_best_agent Ag snd l d); oids (gen_worst_agent Ag snd l d)]
-    ++ match gen_special_agents Ag snd l (Some 1) (Some 1) d with Some (b, w) => [ids b; ids w] | None => [[999]] end
-    ++ match gen_special_agents Ag snd l None (Some (length cs)) d with Some (b, w) => [ids b; ids w] | None => [[999]] end
+    ++ flat_map (fun nbw => match gen_special_agents Ag snd l (fst nbw) (snd nbw) d with Some (b, w) => [ids b; ids w] | None => [[999]] end)
+         [(Some 1, Some 1); (None, Some (length cs)); (Some 0, Some 0); (Some (length cs), None); (Some 1, Some 0); (Some 0, Some 1);
+          (Some (length cs), Some 0); (None, Some 0); (Some 0, None)]
     ++ match gen_special_agents Ag snd l None None d with Some _ => [[998]] | None => [[999]] end)
     [MIN; MAX]
   ++ map (fun p => ids (gen_sort_and_trim Ag snd l p)) (seq 0 (length cs + 2)).
@@ -118,7 +119,8 @@ def real_sel(costs):
         if pop:
             if strictly_better(d, min(pop, key=lambda a: a.cost) if d == TaskType.MIN else max(pop, key=lambda a: a.cost), H.best_agent(pop, d)):
                 problems.append(f"best_agent({d}) is not optimal")
-        for nb, nw in ((1, 1), (None, len(pop))):
+        n_ = len(pop)
+        for nb, nw in ((1, 1), (None, n_), (0, 0), (n_, None), (1, 0), (0, 1), (n_, 0), (None, 0), (0, None)):
             try:
                 b, w = H.special_agents(pop, nb, nw, d); out += [ids(b), ids(w)]
                 eb = H.best_agents(pop, nb, d) if nb is not None else []
